@@ -229,6 +229,25 @@ int load_rules(const std::string& image, YR_RULES** out, size_t max_chunk) {
   return yr_rules_load_stream(&s, out);
 }
 
+#if defined(__SANITIZE_ADDRESS__)
+extern "C" void __asan_poison_memory_region(void const volatile* addr, size_t size);
+extern "C" void __asan_unpoison_memory_region(void const volatile* addr, size_t size);
+#endif
+extern "C" {
+#include <yara/arena.h>
+}
+void poison_slack(YR_RULES* r, bool on) {
+#if defined(__SANITIZE_ADDRESS__)
+  if (!r || !r->arena) return;
+  for (uint32_t i = 0; i < r->arena->num_buffers; i++) {
+    YR_ARENA_BUFFER* b = &r->arena->buffers[i];
+    if (!b->data || b->size <= b->used) continue;
+    if (on) __asan_poison_memory_region(b->data + b->used, b->size - b->used);
+    else __asan_unpoison_memory_region(b->data + b->used, b->size - b->used);
+  }
+#endif
+}
+
 // ----------------------------------------------------------------- corpus ---
 std::string read_file(const std::string& path, bool* ok) {
   std::string s; FILE* f = fopen(path.c_str(), "rb");
